@@ -427,6 +427,18 @@ def check_unmask(ctx, prog, fs):
             n += 1
             x = [e for e in ir.stmt_exprs(lp['body']) if e.get('k') == 'bin' and e.get('op') == '^='][0]
             bufv = [w for w in walk_expr(q.expand(f, x['x'])) if w.get('k') == 'var' and T(f, w.get('t')).get('recp') == 'asl::Array']
+            decl_of = dict((v['id'], v) for s_ in ir.walk_stmts(f['body']) if s_.get('k') == 'decl' for v in s_['vars'])
+            walk_ptr = None
+            if not bufv:
+                # pointer walk `*p++ ^= mask`: the buffer is the array the walking pointer was initialised from
+                tgt = strip_lv(x['x'])
+                if tgt.get('k') == 'un' and tgt.get('op') == '*':
+                    b_ = strip(tgt['e'])
+                    if b_.get('k') == 'un' and b_.get('op') == 'post++' and strip_lv(b_['e']).get('k') == 'var':
+                        walk_ptr = strip_lv(b_['e'])
+                        dv = decl_of.get(walk_ptr['id'])
+                        if dv is not None and dv.get('init') is not None:
+                            bufv = [w for w in walk_expr(q.expand(f, dv['init'])) if w.get('k') == 'var' and T(f, w.get('t')).get('recp') == 'asl::Array']
             role = '%s:word-wise XOR has 4 bytes of slack' % f['n']
             if not bufv:
                 ctx.undecided('C11.unmask', f['pq'], role, fwhere(f, lp['l']), 'XOR target buffer not identified')
@@ -435,7 +447,18 @@ def check_unmask(ctx, prog, fs):
             word = T(f, strip_lv(x['x']).get('t')).get('sz') or 4
             resizes = [e for e in fn_exprs(f) if e.get('k') == 'call' and e.get('pq') == 'asl::Array::resize' and e.get('obj') is not None and strip(e['obj']).get('id') == bid and e.get('l', 0) < lp['l']]
             cl = q.counted_loop(f, lp)
-            if len(resizes) < 2 or cl is None or cl['op'] not in ('<', '<=') or not isinstance(cl['step'], int):
+            if cl is None and walk_ptr is not None:
+                # `while (p != end)` / `p < end` with end = p + K declared before the loop: K iterations of one word
+                c_ = strip(lp.get('c') or {})
+                if c_.get('k') == 'bin' and c_.get('op') in ('!=', '<') and strip(c_['x']).get('id') == walk_ptr['id'] and strip(c_['y']).get('k') == 'var':
+                    ev_ = decl_of.get(strip(c_['y'])['id'])
+                    ini = strip(ev_.get('init') or {}) if ev_ is not None else {}
+                    others = [w for w in q._writes_to(f, walk_ptr['id']) if not any(y is w for y in walk_expr(x))]
+                    if ini.get('k') == 'bin' and ini.get('op') == '+' and not others and not q._writes_to(f, strip(c_['y'])['id']):
+                        k_ = ini['y'] if strip(ini['x']).get('id') == walk_ptr['id'] else ini['x'] if strip(ini['y']).get('id') == walk_ptr['id'] else None
+                        if k_ is not None:
+                            cl = {'var': None, 'init': {'k': 'int', 'v': 0, 'cv': 0}, 'op': '<' if c_['op'] == '<' else '!=', 'bound': k_, 'step': 1}
+            if len(resizes) < 2 or cl is None or cl['op'] not in ('<', '<=', '!=') or not isinstance(cl['step'], int):
                 if len(resizes) < 2:
                     ctx.violation('C11.unmask', f['pq'], role, fwhere(f, lp['l']), 'the %d-byte XOR loop over the byte buffer is not preceded by a grow-then-shrink of the buffer: the last word may extend up to %d bytes past the allocation' % (word, word - 1))
                 else:
